@@ -40,8 +40,8 @@ Print Assumptions C14_end_of_data_contract.
 
 (** non-vacuity: threshold 3 inside a 5-byte write; a peek window and a line crossing the boundary *)
 Example C14_nontrivial_history :
-  b_run (new_buf 3) [BWrite [97; 98; 10; 99; 100]; BPeek 4; BReadBytes 10; BRead 5; BSize;
-                     BSlice 1 (Some 3) [SSize; SReadBytes 10; SRead 9]]
-  = [ON 5 ENil; OData [97; 98; 10; 99] false; OData [97; 98; 10] false; OData [99; 100] true; OSize 5;
-     OSlice [OSize 3; OData [98; 10] false; OData [99] false]].
+  b_run (new_buf 3) [BWrite [97; 98; 10; 99; 100]%N; BPeek 4; BReadBytes 10%N; BRead 5; BSize;
+                     BSlice 1 (Some 3) [SSize; SReadBytes 10%N; SRead 9]]
+  = [ON 5 ENil; OData [97; 98; 10; 99]%N false; OData [97; 98; 10]%N false; OData [99; 100]%N true; OSize 5;
+     OSlice [OSize 3; OData [98; 10]%N false; OData [99]%N false]].
 Proof. vm_compute. reflexivity. Qed.
